@@ -21,7 +21,7 @@ EXTENDS Integers, Sequences, FiniteSets
 \* st: sst "open" | "fin" | "reset"; scode; rst "open" | "stopped"; rcode;
 \*     sent (bytes written and accepted); rcvd (bytes the reader has seen); eof
 InitSt == [sst |-> "open", scode |-> <<0, 0>>, rst |-> "open", rcode |-> <<0, 0>>,
-           sent |-> 0, rcvd |-> 0, eof |-> FALSE, lost |-> FALSE]
+           sent |-> 0, rcvd |-> 0, eof |-> FALSE, lost |-> FALSE, cut |-> FALSE, cutAt |-> 0]
 
 NoCode == <<0, 0>>
 R(k, code, n) == [k |-> k, code |-> code, n |-> n]
@@ -31,7 +31,12 @@ ANY == R("any", NoCode, 0)
 \* (lost: the connection went away under the stream - the receiving side closed it.  A sender whose
 \* stream was still open then learns of it from every call: nothing reports success any more.)
 Allowed(st, o) ==
-  CASE o.op = "lose" -> {R("ok", NoCode, 0)}
+  CASE o.op \in {"lose", "cut", "uncut"} -> {R("ok", NoCode, 0)}
+    \* (cut: the link drops every packet.  Bytes written since then cannot have been acknowledged,
+    \* so a finish cannot report success - "finished" means all data and the FIN are acknowledged -
+    \* and, the peer's STOP_SENDING being unable to arrive either, it cannot report a stop: it waits.)
+    [] st.cut /\ ~st.lost /\ o.op = "finish" /\ st.sst = "open" /\ st.sent > st.cutAt ->
+         {R("timeout", NoCode, 0)}
     [] st.lost /\ o.side = "S" ->
          IF st.sst = "open" /\ o.op \in {"write", "finish", "stopped"} THEN {R("NotConnected", NoCode, 0)} ELSE {ANY}
     [] o.op = "write" ->
@@ -65,6 +70,8 @@ Upd(st, o, r) ==
     [] o.op = "read" -> [st EXCEPT !.rcvd = @ + r.n, !.eof = (r.k = "fin")]
     [] o.op = "stop" /\ st.rst = "open" -> [st EXCEPT !.rst = "stopped", !.rcode = o.code]
     [] o.op = "lose" -> [st EXCEPT !.lost = TRUE]
+    [] o.op = "cut" -> [st EXCEPT !.cut = TRUE, !.cutAt = st.sent]
+    [] o.op = "uncut" -> [st EXCEPT !.cut = FALSE]
     [] OTHER -> st
 
 \* which operations the script may still issue (handles consumed by stop; one read-to-end
